@@ -145,10 +145,14 @@ theorem keyids_strictly_increasing (c : Nat) (ss : List Step) :
       have := issued_ge _ ss x hx
       omega
 
-/-- … hence pairwise distinct: no key id (so no key/nonce pair) is ever issued twice. -/
-theorem keyids_unique (ss : List Step) : (issued Quic.Dc.KeyIds.init ss).Nodup := by
-  have h := keyids_strictly_increasing Quic.Dc.KeyIds.init ss
-  exact h.imp (fun hlt => Nat.ne_of_lt hlt)
+/-- UNIQUENESS (headline form). For every interleaving `ss` of atomic steps by any number of
+    threads, with arbitrary StaleKey values, starting from ANY counter value: the ids handed out
+    are strictly increasing in linearisation order and hence pairwise distinct — no key id (so no
+    key/nonce pair) is ever issued twice. -/
+theorem keyids_unique (c : Nat) (ss : List Step) :
+    (issued c ss).Pairwise (· < ·) ∧ (issued c ss).Nodup := by
+  have h := keyids_strictly_increasing c ss
+  exact ⟨h, h.imp (fun hlt => Nat.ne_of_lt hlt)⟩
 
 /-- each thread sees a strictly increasing subsequence of the issued ids -/
 theorem keyids_per_thread_increasing (t c : Nat) (ss : List Step) :
@@ -222,5 +226,60 @@ example : issued Quic.Dc.KeyIds.init [.next 0, .next 1, .stale 2 10, .next 0, .s
 example : next 4611686018427387902 = (4611686018427387902, none) ∧
     next 4611686018427387901 = (4611686018427387902, some 4611686018427387901) := by
   decide
+
+/-! ## receiver and sender together: StaleKey resynchronisation -/
+
+/-- the id a receiver advertises in a StaleKey packet is above every id it has accepted -/
+theorem replay_min_unseen_above_accepted (ks : List Nat) (hks : ∀ k ∈ ks, k ≤ 4611686018427387903) :
+    ∀ x ∈ acceptedIds init [] ks, x < minimumUnseenKeyId (runState init ks) := by
+  intro x hx
+  have hr := replay_window_refines_spec_run ks
+  obtain ⟨_, ha⟩ := rel_run init Spec.init ks rel_init
+  have ha' : acceptedIds init [] ks = (Spec.init.runState ks).accepted := ha
+  have hinv := specInv_run Spec.init ks specInv_init
+  obtain ⟨m, hm, hxm⟩ := hr.le_max x hx
+  have hm' : highest (acceptedIds init [] ks) = some m := hm
+  have hmem := highest_mem _ m hm'
+  have hmks : m ∈ ks := by
+    rcases accepted_subset init [] ks m hmem with h | h
+    · cases h
+    · exact h
+  have hmle := hks m hmks
+  have hmne : m ≠ keyIdMax := by
+    intro he; apply hinv.no_max; rw [← ha', ← he]; exact hmem
+  have hms : (runState init ks).maxSeen = some m := by rw [hr.max_eq]; exact hm
+  unfold minimumUnseenKeyId
+  rw [hms]
+  unfold keyIdMax at *
+  simp only
+  split <;> omega
+
+/-- RESYNCHRONISATION IS SAFE AND EFFECTIVE. Let a receiver have processed any history `ks`, and
+    let the sender apply the StaleKey value the receiver advertises (`minimum_unseen_key_id`) at
+    any point of any interleaving. Then every id the sender hands out afterwards is one the
+    receiver (in that state) accepts: it is not reserved, was never accepted, and lies above the
+    receiver's maximum. -/
+theorem stale_resync_fresh (ks : List Nat) (hks : ∀ k ∈ ks, k ≤ 4611686018427387903)
+    (c t : Nat) (ss : List Step) :
+    ∀ x ∈ issued c (Step.stale t (minimumUnseenKeyId (runState init ks)) :: ss),
+      isOk (postAuthentication (runState init ks) x).2 = true := by
+  intro x hx
+  have hge := keyids_stale_respected c t _ ss x hx
+  have hnw := keyids_no_wrap c _ x hx
+  have habove := replay_min_unseen_above_accepted ks hks
+  rw [replay_exact]
+  refine ⟨by omega, ?_, ?_⟩
+  · intro hmem; have := habove x hmem; omega
+  · cases hh : highest (acceptedIds init [] ks) with
+    | none => exact Or.inl rfl
+    | some m =>
+      right
+      refine ⟨m, rfl, Or.inl ?_⟩
+      have := habove m (highest_mem _ m hh)
+      omega
+
+/-- non-vacuity: after the receiver saw [5, 900, 7], StaleKey carries 901 and the sender, wherever
+    its counter was, continues with 901, 902 -/
+example : issued 3 [.stale 0 901, .next 1, .next 2] = [901, 902] := by decide
 
 end Quic.Proofs.C19
